@@ -238,9 +238,20 @@ func fieldOf(v ssa.Value) *types.Var {
 
 func fieldName(v ssa.Value) string {
 	if f := fieldOf(v); f != nil {
-		return f.Name()
+		return fieldVarName(f)
 	}
 	return ""
+}
+
+// fieldAlias: struct fields that were merely renamed since the rules were confirmed → the name they had then
+// (detectRenames).
+var fieldAlias = map[*types.Var]string{}
+
+func fieldVarName(f *types.Var) string {
+	if old, ok := fieldAlias[f]; ok {
+		return old
+	}
+	return f.Name()
 }
 
 // namedOf returns the named type (through pointers) of t, or nil.
@@ -435,6 +446,39 @@ func namedTypeName(t types.Type) string {
 // The returned Termer names the literal's free variables after the variables of outer they are bound to, so that
 // rules can relate them to outer's parameters whatever the helper calls them.
 func adapterOf(p *Program, outer *ssa.Function, callee string) (*ssa.Function, *Termer) {
+	// the iterator call may sit in a freshly extracted helper that is handed the literal (`in.scanFrom(key, func…)`)
+	for _, cs := range callsIn(outer) {
+		h := cs.Common().StaticCallee()
+		if h == nil || inlinable == nil || !inlinable(h) || len(h.Params) != len(cs.Common().Args) {
+			continue
+		}
+		for _, hcs := range callsIn(h) {
+			if calleeName(p, hcs) != callee || len(hcs.Common().Args) == 0 {
+				continue
+			}
+			prm, ok := resolveCell(stripConv(hcs.Common().Args[len(hcs.Common().Args)-1])).(*ssa.Parameter)
+			if !ok {
+				continue
+			}
+			for k, hp := range h.Params {
+				if hp != prm {
+					continue
+				}
+				a := cs.Common().Args[k]
+				for {
+					if ct, ok := a.(*ssa.ChangeType); ok {
+						a = ct.X
+					} else {
+						break
+					}
+				}
+				if mc, ok := a.(*ssa.MakeClosure); ok {
+					fn := mc.Fn.(*ssa.Function)
+					return fn, &Termer{P: p}
+				}
+			}
+		}
+	}
 	for _, cs := range callsIn(outer) {
 		if calleeName(p, cs) != callee || len(cs.Common().Args) == 0 {
 			continue
